@@ -64,7 +64,10 @@ def _rule_dying_alias(prog, chk, R):
                           any(y.get('k') == 'ref' and y.get('id') == vid for y in SX.walk(n.get('obj')))]
                 # … and in member functions of local records constructed from it (scope-exit helpers)
                 for rn, rec in prog.facts.records.items():
-                    if f.name in rn or (rec.get('file') == f.file and f.ln <= rec.get('ln', 0) <= f.d.get('endln', f.ln)):
+                    # (a record local to some function of the evaluator's source file: after K-NORM inlined an extracted helper, the
+                    # record's lines need not lie inside the function the alias is now seen in)
+                    if f.name in rn or (((rec.get('file') or '').endswith('runtime_evaluator.cpp') and '::' not in rn) or
+                                        (rec.get('file') == f.file and f.ln <= rec.get('ln', 0) <= f.d.get('endln', f.ln))):
                         for mth in prog.methods_of(rn):
                             if mth.body:
                                 for n in SX.walk(mth.body):
